@@ -51,7 +51,8 @@ func (u *memoryManagementUnit) getFromL3(addrs []int32) ([]int8, bool, bool) {
 				}
 			}
 
-			u.pendings = append(u.pendings, [2]int32{addr, addr + l3CacheLineSize + 1})
+			base := addr - addr%l3CacheLineSize
+			u.pendings = append(u.pendings, [2]int32{base, base + l3CacheLineSize})
 			return nil, false, false
 		}
 		memory = append(memory, v)
@@ -100,6 +101,8 @@ func (u *memoryManagementUnit) getFromMemory(addrs []int32) []int8 {
 }
 
 func (u *memoryManagementUnit) fetchCacheLine(addr int32) []int8 {
+	// A line starts at a multiple of the line size
+	addr -= addr % l3CacheLineSize
 	memory := make([]int8, 0, l3CacheLineSize)
 	for i := 0; i < l3CacheLineSize; i++ {
 		if int(addr)+i >= len(u.ctx.Memory) {
@@ -112,6 +115,7 @@ func (u *memoryManagementUnit) fetchCacheLine(addr int32) []int8 {
 }
 
 func (u *memoryManagementUnit) pushLineToL3(addr comp.AlignedAddress, line []int8) {
+	addr -= addr % l3CacheLineSize
 	evicted := u.l3.PushLine(addr, line)
 	for i, pending := range u.pendings {
 		if pending[0] == int32(addr) {
